@@ -20,6 +20,7 @@ type SpecEnv struct {
 	inSpecFn bool
 	noUnfold bool
 	hdr      *SpecEnv
+	bound    map[string]bool // names bound by quantifiers (shadow locals)
 	usedHeaps *[]string // when translating a spec function body: heaps read
 }
 
@@ -35,8 +36,13 @@ func (env *SpecEnv) with(vars map[string]SpecVal) *SpecEnv {
 	for k, v := range env.vars {
 		n.vars[k] = v
 	}
+	n.bound = map[string]bool{}
+	for k := range env.bound {
+		n.bound[k] = true
+	}
 	for k, v := range vars {
 		n.vars[k] = v
+		n.bound[k] = true
 	}
 	return &n
 }
@@ -55,6 +61,10 @@ func (env *SpecEnv) resolveSort(typ string) (string, types.Type) {
 		return "Slice", nil
 	case "Iface":
 		return "Iface", nil
+	}
+	if al, ok := g.eng.contracts.SortAliases[typ]; ok {
+		gt := g.eng.evalGoType(al)
+		return g.so.sortOf(gt), gt
 	}
 	if strings.HasPrefix(typ, "[]") {
 		_, et := env.resolveSort(typ[2:])
@@ -261,6 +271,13 @@ func (env *SpecEnv) tr(e Expr) SpecVal {
 
 func (env *SpecEnv) ident(name string) SpecVal {
 	g := env.g
+	if env.locals != nil {
+		if _, bound := env.bound[name]; !bound {
+			if v, ok := env.locals(name); ok {
+				return v
+			}
+		}
+	}
 	if v, ok := env.vars[name]; ok {
 		return v
 	}
@@ -645,6 +662,21 @@ func (env *SpecEnv) call(x ECall) SpecVal {
 			fn = "go.rem"
 		}
 		return SpecVal{"(" + fn + " " + a.T + " " + b.T + ")", "Int", nil}
+	case "noVals":
+		return SpecVal{"((as const (Array Val Bool)) false)", "(Array Val Bool)", nil}
+	case "arg":
+		id, ok := x.Args[0].(EIdent)
+		if !ok {
+			env.fail("arg() needs a parameter name")
+		}
+		v, ok := g.paramVals[id.Name]
+		if !ok {
+			env.fail("arg(): no parameter %s", id.Name)
+		}
+		return v
+	case "wrap32":
+		v := env.tr(x.Args[0])
+		return SpecVal{"(wrap_i32 " + v.T + ")", "Int", nil}
 	case "typeof":
 		v := env.tr(x.Args[0])
 		if v.Sort != "Iface" {
@@ -716,9 +748,9 @@ func (env *SpecEnv) call(x ECall) SpecVal {
 		args = append(args, env.heapT(env.cur, h))
 	}
 	if len(args) == 0 {
-		return SpecVal{sf.Name, info.retSort, info.retGo}
+		return SpecVal{smtFn(sf), info.retSort, info.retGo}
 	}
-	app := "(" + sf.Name + " " + strings.Join(args, " ") + ")"
+	app := "(" + smtFn(sf) + " " + strings.Join(args, " ") + ")"
 	if sf.Rec && !env.noUnfold {
 		g.unfoldRec(sf, info, args, app)
 	}
@@ -745,6 +777,14 @@ func (g *VCGen) unfoldRec(sf *SpecFn, info *specFnInfo, args []string, app strin
 	}
 	body := env.tr(sf.Body.E)
 	g.assume("(= " + app + " " + body.T + ")")
+}
+
+// smtFn: SMT symbol of a spec function (prefixed: user names such as abs clash with theory symbols in cvc5)
+func smtFn(sf *SpecFn) string {
+	if sf.Raw {
+		return sf.Name
+	}
+	return "sp." + sf.Name
 }
 
 type specFnInfo struct {
@@ -777,7 +817,7 @@ func (g *VCGen) specFnInfo(sf *SpecFn) *specFnInfo {
 	inf.retSort, inf.retGo = env.resolveSort(sf.Ret)
 	if sf.Body == nil {
 		if !g.eng.rawDeclared[sf.Name] {
-			g.specDecls = append(g.specDecls, fmt.Sprintf("(declare-fun %s (%s) %s)", sf.Name, strings.Join(inf.paramSorts, " "), inf.retSort))
+			g.specDecls = append(g.specDecls, fmt.Sprintf("(declare-fun %s (%s) %s)", smtFn(sf), strings.Join(inf.paramSorts, " "), inf.retSort))
 		}
 		return inf
 	}
@@ -806,9 +846,9 @@ func (g *VCGen) specFnInfo(sf *SpecFn) *specFnInfo {
 		}
 		if sf.Rec {
 			// uninterpreted; unfolded explicitly where applied to ground terms (see unfoldRec)
-			g.specDecls = append(g.specDecls, fmt.Sprintf("(declare-fun %s (%s) %s)", sf.Name, strings.Join(inf.paramSorts, " "), inf.retSort))
+			g.specDecls = append(g.specDecls, fmt.Sprintf("(declare-fun %s (%s) %s)", smtFn(sf), strings.Join(inf.paramSorts, " "), inf.retSort))
 		} else {
-			g.specDecls = append(g.specDecls, fmt.Sprintf("(define-fun %s (%s) %s %s)", sf.Name, strings.Join(params, " "), inf.retSort, body.T))
+			g.specDecls = append(g.specDecls, fmt.Sprintf("(define-fun %s (%s) %s %s)", smtFn(sf), strings.Join(params, " "), inf.retSort, body.T))
 		}
 	}()
 	return inf
